@@ -47,7 +47,8 @@ type Val struct {
 	Expr    ast.Expr
 	Pkg     *packages.Package
 	Ptr     bool
-	Local   bool // struct value created inside a fold (fields may be assigned there)
+	Local   bool  // struct value created inside a fold (fields may be assigned there)
+	Cap     int64 // lists made by make(T, len, cap) inside a fold: the capacity (0: the length)
 }
 
 func (v *Val) String() string {
@@ -97,6 +98,25 @@ func (v *Val) isInt() bool { return v != nil && v.K == VInt }
 
 // ints converts a VList of VInt to []int64.
 func (v *Val) ints() ([]int64, bool) {
+	// a row written as a struct of integers counts as the list of its fields in declaration order (a table of
+	// {pattern, value} structs is the same table as one of two-element lists)
+	if v != nil && v.K == VStruct && v.T != nil {
+		t := v.T
+		if pt, ok := t.Underlying().(*types.Pointer); ok {
+			t = pt.Elem()
+		}
+		if st, ok := t.Underlying().(*types.Struct); ok && st.NumFields() > 0 {
+			out := make([]int64, st.NumFields())
+			for i := 0; i < st.NumFields(); i++ {
+				f := v.Fields[st.Field(i).Name()]
+				if f == nil || f.K != VInt {
+					return nil, false
+				}
+				out[i] = f.I
+			}
+			return out, true
+		}
+	}
 	if v == nil || v.K != VList {
 		return nil, false
 	}
@@ -235,6 +255,11 @@ func (ev *evaluator) eval(p *packages.Package, e ast.Expr) *Val {
 func (ev *evaluator) evalObj(obj types.Object, mk func(VKind) *Val) *Val {
 	if obj == nil {
 		return mk(VUnknown)
+	}
+	if fn, ok := obj.(*types.Func); ok && ev.c.funcDecl[fn] != nil {
+		v := mk(VFunc) // a declared function of the module used as a value (an entry of a table of functions)
+		v.Fn = fn
+		return v
 	}
 	if vr, ok := obj.(*types.Var); ok && vr.Pkg() != nil && vr.Parent() == vr.Pkg().Scope() {
 		init, ip := ev.c.varInitOfObj(obj)
